@@ -3,6 +3,8 @@ import Pyunicorn.Lemmas.SimilarityIeee
 import Pyunicorn.Lemmas.SimilarityWeight
 import Pyunicorn.Lemmas.SimilarityHilbert
 import Pyunicorn.Lemmas.SimilarityRounding
+import Pyunicorn.Lemmas.SimilarityRnF
+import Pyunicorn.Lemmas.SimilarityHilbertX
 import Pyunicorn.Lemmas.SimilarityCoupled
 import Pyunicorn.Generated.ArithC09
 import Pyunicorn.Model.SimilarityScript
@@ -1287,6 +1289,410 @@ theorem coupled_after_history (N1 N2 : Nat) (directed : Bool) (S0 damp : Sim) (n
 example : let s : Net := mkThreshold 3 false (fun i j => if i = j then 1 else ((i + j : Nat) : Rat) / 4) (fun _ _ => 1) false (3/8)
     crossLayerAdjacency 1 2 s = [[0, 1]] ∧ adjacency1 1 s = [[0]] ∧ adjacency2 1 2 s = [[0, 1], [1, 0]] ∧
       numberCrossLayerLinks 1 2 s = 1 ∧ crossLinkDensityC 1 2 s = some (1/2) := by decide +kernel
+
+/-! ## 11. the float32 rounding of the model *is* a rounding (round 5)
+
+The theorems of section 9 hold for every monotone `fl` that leaves the stored values fixed; until
+round 4 these two facts were hypotheses, probed on samples.  For `rnF p emin` (every precision
+`p ≥ 1`, every `emin`; `rn24 = rnF 24 (-126)` is what the driver runs and what is compared with
+numpy's float32 on every run) they are theorems, so the float32 statements hold for every object
+the class can reach with **no hypothesis about the rounding left**. -/
+
+/-- **round-to-nearest-even to `p` bits with gradual underflow is monotone** — within a binade,
+across binades (where the spacing doubles), through the subnormal range and through zero -/
+theorem rnF_monotone (p : Nat) (hp : 1 ≤ p) (emin : Int) (x y : Rat) (h : x ≤ y) :
+    rnF p emin x ≤ rnF p emin y := rnF_mono p hp emin x y h
+
+/-- **… idempotent** (a result is representable: rounding it again changes nothing) **and odd** -/
+theorem rnF_idempotent (p : Nat) (hp : 1 ≤ p) (emin : Int) (x : Rat) :
+    rnF p emin (rnF p emin x) = rnF p emin x ∧ rnF p emin (-x) = - rnF p emin x :=
+  ⟨rnF_idem p hp emin x, rnF_neg p emin x⟩
+
+/-- the binary exponent of the model is the true one: `2^e ≤ x < 2^(e+1)` -/
+theorem binExp_spec (x : Rat) (hx : 0 < x) : twoPow (binExp x) ≤ x ∧ x < twoPow (binExp x + 1) :=
+  ⟨twoPow_binExp_le x hx, binExp_lt x hx⟩
+
+theorem rn24_monotone (x y : Rat) (h : x ≤ y) : rn24 x ≤ rn24 y :=
+  rnF_mono 24 (by norm_num) (-126) x y h
+
+theorem rn24_idempotent (x : Rat) : rn24 (rn24 x) = rn24 x := rnF_idem 24 (by norm_num) (-126) x
+
+/-- binary32 is exact on the constants of the weight formula -/
+theorem rn24_exact_consts : rn24 0 = 0 ∧ rn24 1 = 1 ∧ rn24 2 = 2 ∧ rn24 (1 / 2) = 1 / 2 := by
+  decide +kernel
+
+/-- **the stored similarity `np.abs(S.astype("float32"))` consists of float32 fixed points ≥ 0** -/
+theorem rn24_stored_fixed (S0 : XSim) (i j : Nat) (v : Rat) (h : absX rn24 S0 i j = some v) :
+    rn24 v = v ∧ 0 ≤ v := by
+  simp only [absX, Option.map_eq_some_iff] at h
+  obtain ⟨s0, _, rfl⟩ := h
+  exact rnF_abs_fixed 24 (by norm_num) (-126) s0
+
+/-- **… and stays so after every history** of `set_threshold / set_link_density / set_non_local`
+calls and similarity re-derivations (NaN entries, NaN thresholds allowed): hypothesis `hrep` of the
+`x_*` theorems holds for every reachable object -/
+theorem rn24_stored_fixed_after_history (N : Nat) (directed : Bool) (S0 : XSim) (damp : Sim)
+    (nl : Bool) (θ : Option Rat) (ops : List XOp) (s' : XNet)
+    (h : (mkThresholdX rn24 N directed S0 damp nl θ).run rn24 ops = some s') :
+    (∀ i j v, s'.S i j = some v → rn24 v = v ∧ 0 ≤ v) ∧ s'.N = N ∧ s'.damp = damp ∧
+      s'.Consistent rn24 := by
+  have hc : (mkThresholdX rn24 N directed S0 damp nl θ).Consistent rn24 :=
+    (x_setThreshold_consistent rn24 _ θ).1
+  obtain ⟨c, ⟨d1, _, d3⟩, d4⟩ := x_consistent_after_history rn24 ops _ s' hc h
+  have hS : s'.S = absX rn24 (lastSimX S0 ops) := by
+    rw [d4, ← curSimX_absX]; rfl
+  refine ⟨?_, d1, d3, c⟩
+  intro i j v hv
+  rw [hS] at hv
+  exact rn24_stored_fixed _ i j v hv
+
+/-- **the weighted similarity the comparison sees is a float32 fixed point too** (the stored value,
+or the rounded product `fl (s·w)`) -/
+theorem rn24_weighted_fixed (nl : Bool) (S : XSim) (damp : Sim)
+    (hrep : ∀ i j v, S i j = some v → rn24 v = v ∧ 0 ≤ v) (i j : Nat) (v : Rat)
+    (h : weightedX rn24 nl S damp i j = some v) : rn24 v = v := by
+  simp only [weightedX, Option.map_eq_some_iff] at h
+  obtain ⟨s, hs, rfl⟩ := h
+  cases nl
+  · simpa using (hrep i j s hs).1
+  · simpa using rn24_idempotent (s * damp i j)
+
+/-- **the link rule of every reachable float32 object, against the *unrounded* reported
+threshold**: a reported link joins distinct nodes whose (damped, float32) similarity exceeds
+`threshold()`; a pair above `threshold()` that is not linked has `float32(threshold()) =` its
+similarity.  No hypothesis about the rounding; `non_local` on or off; NaNs anywhere. -/
+theorem rn24_link_rule_after_history (N : Nat) (directed : Bool) (S0 : XSim) (damp : Sim)
+    (nl : Bool) (θ : Option Rat) (ops : List XOp) (s' : XNet)
+    (h : (mkThresholdX rn24 N directed S0 damp nl θ).run rn24 ops = some s')
+    (t : Rat) (ht : s'.θ = some t) (i j : Nat) (hi : i < N) (hj : j < N) (w : Rat)
+    (hw : weightedX rn24 s'.nonLocal s'.S damp i j = some w) :
+    (s'.A[i * N + j]? = some true → i ≠ j ∧ t < w) ∧
+      (i ≠ j → t < w → s'.A[i * N + j]? ≠ some true → rn24 t = w) := by
+  obtain ⟨hrep, hN, hd, hA, _, _⟩ := rn24_stored_fixed_after_history N directed S0 damp nl θ ops s' h
+  rw [hA, ht, hN, hd]
+  have hfix := rn24_weighted_fixed s'.nonLocal s'.S damp hrep i j w hw
+  exact ⟨fun hl => float_links_sound rn24 rn24_monotone _ t N i j hi hj w hw hfix hl,
+    fun hij htw hl => float_links_complete rn24 rn24_monotone _ t N i j hi hj hij w hw hfix htw hl⟩
+
+/-- **`set_link_density(ρ)` as executed on every reachable float32 object**: whatever history of
+setters and re-derivations produced the object (NaN similarities and NaN thresholds included), the
+call with the IEEE index links at most `(ρ + 2⁻⁵² + 2⁻¹⁰⁶)·(N² − N)` ordered pairs.  The only
+hypothesis left is `damp ≤ 1` (discharged below for the computed weight). -/
+theorem rn24_density_request_after_history (N : Nat) (directed : Bool) (S0 : XSim) (damp : Sim)
+    (nl : Bool) (θ : Option Rat) (ops : List XOp) (s' s'' : XNet) (ρ : Rat)
+    (h : (mkThresholdX rn24 N directed S0 damp nl θ).run rn24 ops = some s')
+    (hd : ∀ i j, i < N → j < N → damp i j ≤ 1) (h0 : 0 ≤ ρ) (h1 : ρ ≤ 1)
+    (h2 : s'.setLinkDensity rn24 (ieeeIndex ρ (offDiagX s'.S s'.N).length) = some s'') :
+    (nnz s''.A : Rat) ≤ (ρ + ieeeSlack) * ((offDiagX s'.S s'.N).length : Rat) := by
+  obtain ⟨hrep, hN, hdm, _⟩ := rn24_stored_fixed_after_history N directed S0 damp nl θ ops s' h
+  exact x_set_link_density_ieee rn24 rn24_monotone s' s'' ρ (fun i j v _ _ hv => hrep i j v hv)
+    (by rw [hN, hdm]; exact hd) h0 h1 h2
+
+/-- **the weight as computed in float32 lies in `[0, 1]`** for every `tanh` with values in
+`[-1, 1]` — no hypothesis about the rounding -/
+theorem rn24_weight_mem_unit (th : Rat → Rat) (hth : ∀ x, -1 ≤ th x ∧ th x ≤ 1) (a dmin d : Rat) :
+    0 ≤ dampOfFl rn24 th a dmin d ∧ dampOfFl rn24 th a dmin d ≤ 1 :=
+  dampOfFl_mem_unit rn24 th rn24_monotone rn24_exact_consts.1 rn24_exact_consts.2.1
+    rn24_exact_consts.2.2.1 hth a dmin d
+
+/-- **… hence with the documented weight nothing is assumed at all**: a float32 network with the
+distance weight computed as the code computes it, after any history, never exceeds a requested
+density by more than the rounding unit of the index -/
+theorem rn24_density_request_documented_weight (N : Nat) (directed : Bool) (S0 : XSim) (dist : Sim)
+    (th : Rat → Rat) (hth : ∀ x, -1 ≤ th x ∧ th x ≤ 1) (a dmin : Rat)
+    (nl : Bool) (θ : Option Rat) (ops : List XOp) (s' s'' : XNet) (ρ : Rat)
+    (h : (mkThresholdX rn24 N directed S0 (dampMatFl rn24 th a dmin dist) nl θ).run rn24 ops
+      = some s') (h0 : 0 ≤ ρ) (h1 : ρ ≤ 1)
+    (h2 : s'.setLinkDensity rn24 (ieeeIndex ρ (offDiagX s'.S s'.N).length) = some s'') :
+    (nnz s''.A : Rat) ≤ (ρ + ieeeSlack) * ((offDiagX s'.S s'.N).length : Rat) :=
+  rn24_density_request_after_history N directed S0 _ nl θ ops s' s'' ρ h
+    (fun i j _ _ => (rn24_weight_mem_unit th hth a dmin (dist i j)).2) h0 h1 h2
+
+/-- **suppressing local links only removes links, on every reachable float32 object** -/
+theorem rn24_non_local_le_after_history (N : Nat) (directed : Bool) (S0 : XSim) (damp : Sim)
+    (nl : Bool) (θ : Option Rat) (ops : List XOp) (s' : XNet)
+    (h : (mkThresholdX rn24 N directed S0 damp nl θ).run rn24 ops = some s')
+    (hd : ∀ i j, i < N → j < N → damp i j ≤ 1) (t : Option Rat) :
+    nnz (thresholdAdjacencyX (weightedX rn24 true s'.S damp) t N)
+      ≤ nnz (thresholdAdjacencyX (weightedX rn24 false s'.S damp) t N) := by
+  obtain ⟨hrep, _, _, _⟩ := rn24_stored_fixed_after_history N directed S0 damp nl θ ops s' h
+  exact x_nnz_non_local_le rn24 rn24_monotone s'.S damp t N (fun i j v _ _ hv => hrep i j v hv) hd
+
+/-- the crossing of a binade: 2²⁴−1 and 2²⁴+1 round to 2²⁴−1 and 2²⁴ (spacing 1 → 2), the largest
+subnormal and the smallest normal are fixed, half the smallest subnormal rounds to zero (even) -/
+example : rn24 (2 ^ 24 - 1) = 2 ^ 24 - 1 ∧ rn24 (2 ^ 24 + 1) = 2 ^ 24 ∧ rn24 (2 ^ 24 + 3) = 2 ^ 24 + 4 ∧
+    rn24 ((2 ^ 23 - 1) / 2 ^ 149) = (2 ^ 23 - 1) / 2 ^ 149 ∧ rn24 (1 / 2 ^ 126) = 1 / 2 ^ 126 ∧
+    rn24 (1 / 2 ^ 150) = 0 ∧ rn24 (3 / 2 ^ 150) = 4 / 2 ^ 150 ∧ rn24 (-(2 ^ 24 + 1)) = -(2 ^ 24) := by
+  decide +kernel
+
+/-- a reachable float32 object with a NaN pair, after `set_non_local(True)` and a re-derivation -/
+example : ((mkThresholdX rn24 2 false (fun i j => if i = j then some 1 else some (-(1/3)))
+    (fun _ _ => 3/4) false (some (1/4))).run rn24
+      [.nl true, .resim (fun i j => if i = j then none else some (2/3))]).isSome = true := by
+  decide +kernel
+
+/-! ### the request is missed by exactly three kinds of pairs — combined (round 5)
+
+Round 2 (`density_gap_non_local`: suppressed pairs) and round 4 (`x_density_gap`: NaN pairs) each
+named one extra term; here they hold together, for the computation as executed. -/
+
+/-- the ordered pairs above the threshold whose *float* damped similarity is not above it -/
+def suppressedX (fl : Rat → Rat) (S : XSim) (damp : Sim) (θ : Option Rat) (N : Nat) : Nat :=
+  ((List.range (N * N)).filter fun p => p / N != p % N).countP fun p =>
+    gtX (S (p / N) (p % N)) θ && !gtX (weightedX fl true S damp (p / N) (p % N)) θ
+
+/-- **"misses it by at most the tied pairs", as executed and with everything switched on**: NaN
+similarities, `non_local`, float product, rounded threshold.  For every raw index
+`k ≤ (1 − ρ)·len + ε`:
+`ρ·len − ε ≤ #linked + #tied at θ + #NaN + #suppressed by the (rounded) distance weight`. -/
+theorem x_density_gap_non_local (fl : Rat → Rat) (S : XSim) (damp : Sim) (N k : Nat) (ρ ε : Rat)
+    (θ : Option Rat)
+    (hrep : ∀ i j s, i < N → j < N → S i j = some s → fl s = s ∧ 0 ≤ s)
+    (hk : (k : Rat) ≤ (1 - ρ) * ((offDiagX S N).length : Rat) + ε)
+    (h : thresholdFromIndexX S N k = some θ) :
+    ρ * ((offDiagX S N).length : Rat) - ε
+      ≤ (nnz (thresholdAdjacencyX (weightedX fl true S damp) (θ.map fl) N) : Rat)
+        + (tiesX (offDiagX S N) θ : Rat) + ((offDiagX S N).countP Option.isNone : Rat)
+        + (suppressedX fl S damp θ N : Rat) := by
+  have h0 := x_density_gap fl S damp N k ρ ε θ hrep hk h
+  rw [selected_threshold_fixed fl S N k θ hrep h] at h0 ⊢
+  have hle : nnz (thresholdAdjacencyX (weightedX fl false S damp) θ N)
+      ≤ nnz (thresholdAdjacencyX (weightedX fl true S damp) θ N) + suppressedX fl S damp θ N := by
+    rw [nnz_thresholdAdjacencyX, nnz_thresholdAdjacencyX, weightedX_false]
+    simp only [offDiagX, List.countP_map, suppressedX]
+    exact countP_le_countP_add ((List.range (N * N)).filter fun p => p / N != p % N)
+      (fun p => gtX (S (p / N) (p % N)) θ)
+      (fun p => gtX (weightedX fl true S damp (p / N) (p % N)) θ)
+  have : (nnz (thresholdAdjacencyX (weightedX fl false S damp) θ N) : Rat)
+      ≤ (nnz (thresholdAdjacencyX (weightedX fl true S damp) θ N) : Rat)
+        + (suppressedX fl S damp θ N : Rat) := by exact_mod_cast hle
+  linarith
+
+/-- **… on every reachable float32 object, with the IEEE index**: after any history,
+`set_link_density(ρ)` with `non_local` on links at least
+`(ρ − 2⁻⁵² − 2⁻¹⁰⁶)·(N² − N) − #tied − #NaN − #suppressed` ordered pairs -/
+theorem rn24_density_gap_after_history (N : Nat) (directed : Bool) (S0 : XSim) (damp : Sim)
+    (nl : Bool) (θ : Option Rat) (ops : List XOp) (s' : XNet) (ρ : Rat) (θ' : Option Rat)
+    (h : (mkThresholdX rn24 N directed S0 damp nl θ).run rn24 ops = some s')
+    (h0 : 0 ≤ ρ) (h1 : ρ ≤ 1)
+    (h2 : thresholdFromIndexX s'.S N (ieeeIndex ρ (offDiagX s'.S N).length) = some θ') :
+    (ρ - ieeeSlack) * ((offDiagX s'.S N).length : Rat)
+      ≤ (nnz (thresholdAdjacencyX (weightedX rn24 true s'.S damp) (θ'.map rn24) N) : Rat)
+        + (tiesX (offDiagX s'.S N) θ' : Rat) + ((offDiagX s'.S N).countP Option.isNone : Rat)
+        + (suppressedX rn24 s'.S damp θ' N : Rat) := by
+  obtain ⟨hrep, _, _, _⟩ := rn24_stored_fixed_after_history N directed S0 damp nl θ ops s' h
+  obtain ⟨_, b2⟩ := ieeeIndex_bounds ρ (offDiagX s'.S N).length h0 h1
+  have := x_density_gap_non_local rn24 s'.S damp N _ ρ _ θ' (fun i j v _ _ hv => hrep i j v hv) b2 h2
+  linarith
+
+/-- 3 nodes, one NaN pair, weight 1/2 on the pair (0,2)/(2,0): request ρ = 1 → index 0 → threshold
+1/2 (4 finite values 1/2, 1/2, 3/4, 3/4; NaNs last); the pairs with 3/4 are suppressed
+(3/8 ≤ 1/2), the pairs with 1/2 tie: 6 = 0 linked + 2 tied + 2 NaN + 2 suppressed -/
+example : let S : XSim := fun i j => if i + j = 1 then none else if i + j = 2 then some (3/4) else some (1/2)
+    let damp : Sim := fun i j => if i + j = 2 then 1/2 else 1
+    thresholdFromIndexX S 3 0 = some (some (1/2)) ∧ suppressedX rn24 S damp (some (1/2)) 3 = 2 ∧
+      nnz (thresholdAdjacencyX (weightedX rn24 true S damp) (some (1/2)) 3) = 0 ∧
+      tiesX (offDiagX S 3) (some (1/2)) = 2 ∧ (offDiagX S 3).countP Option.isNone = 2 := by
+  decide +kernel
+
+/-! ## 12. `HilbertClimateNetwork` as executed: NaN coherence / phase, float32 (round 5)
+
+`Model/SimilarityHilbertX.lean`: the methods of `climate/hilbert.py` on top of the NaN / float32
+model `XNet`.  Section 7 is the special case "no NaN, `fl = id`" (`xh_refines`). -/
+
+/-- **link rule of the Hilbert network, as executed**: `i → j` exactly when the nodes are distinct,
+the (damped, rounded) coherence and the rounded threshold are numbers with coherence > threshold,
+and — for a directed network — the phase shift is a number `> 0` (a NaN phase never links) -/
+theorem xh_link_iff (fl : Rat → Rat) (N : Nat) (d : Bool) (S P : XSim) (damp : Sim) (nl : Bool)
+    (θ : Option Rat) (i j : Nat) (hi : i < N) (hj : j < N) :
+    (hilbertStateX fl N d S P damp nl θ).net.A[i * N + j]? = some true ↔
+      (i ≠ j ∧ ∃ s t, weightedX fl nl S damp i j = some s ∧ θ.map fl = some t ∧ t < s) ∧
+        (d = true → ∃ φ, P i j = some φ ∧ 0 < φ) := by
+  cases d
+  · simp only [hilbertStateX, hilbertAdjacencyX, Bool.false_eq_true, if_false]
+    rw [x_link_iff _ _ _ _ _ hi hj]
+    simp
+  · simp only [hilbertStateX, hilbertAdjacencyX, if_true]
+    rw [getElem?_phaseMaskX, flat_div N i j hj, flat_mod N i j hj]
+    rw [← x_link_iff _ _ _ _ _ hi hj]
+    cases hA : (thresholdAdjacencyX (weightedX fl nl S damp) (θ.map fl) N)[i * N + j]? with
+    | none => simp
+    | some b =>
+      cases hP : P i j with
+      | none => simp [gtX]
+      | some φ => cases b <;> simp [gtX]
+
+/-- the constructor yields that state (`_set_directed(d, True)`, `ClimateNetwork.__init__` with the
+float32 cast and the overridden `set_threshold`, `GeoNetwork.__init__`, `_set_directed(d, False)`) -/
+theorem xh_constructor (fl : Rat → Rat) (N : Nat) (d : Bool) (S0 P : XSim) (damp : Sim) (nl : Bool)
+    (θ : Option Rat) :
+    mkHilbertX fl N d S0 P damp nl θ = hilbertStateX fl N d (absX fl S0) P damp nl θ :=
+  mkHilbertX_eq_state fl N d S0 P damp nl θ
+
+/-- a pair with NaN coherence or (directed) NaN phase is never linked -/
+theorem xh_nan_never_linked (fl : Rat → Rat) (N : Nat) (d : Bool) (S P : XSim) (damp : Sim)
+    (nl : Bool) (θ : Option Rat) (i j : Nat) (hi : i < N) (hj : j < N)
+    (h : S i j = none ∨ (d = true ∧ P i j = none)) :
+    (hilbertStateX fl N d S P damp nl θ).net.A[i * N + j]? ≠ some true := by
+  rw [Ne, xh_link_iff fl N d S P damp nl θ i j hi hj]
+  rintro ⟨⟨_, s, t, hs, _, _⟩, hp⟩
+  rcases h with h | ⟨hd, h⟩
+  · simp [weightedX, h] at hs
+  · obtain ⟨φ, hφ, _⟩ := hp hd
+    rw [h] at hφ; cases hφ
+
+/-- an antisymmetric phase never links a pair in both directions, as executed -/
+theorem xh_no_mutual_links (fl : Rat → Rat) (N : Nat) (S P : XSim) (damp : Sim) (nl : Bool)
+    (θ : Option Rat) (i j : Nat) (hi : i < N) (hj : j < N)
+    (hP : ∀ φ, P i j = some φ → P j i = some (-φ)) :
+    ¬ ((hilbertStateX fl N true S P damp nl θ).net.A[i * N + j]? = some true ∧
+       (hilbertStateX fl N true S P damp nl θ).net.A[j * N + i]? = some true) := by
+  rw [xh_link_iff fl N true S P damp nl θ i j hi hj, xh_link_iff fl N true S P damp nl θ j i hj hi]
+  rintro ⟨⟨_, h1⟩, ⟨_, h2⟩⟩
+  obtain ⟨φ, a1, a2⟩ := h1 rfl
+  obtain ⟨ψ, b1, b2⟩ := h2 rfl
+  rw [hP φ a1] at b1
+  cases b1
+  linarith
+
+/-- the reachable float32 Hilbert states -/
+def XHNet.Inv (fl : Rat → Rat) (h : XHNet) (N : Nat) (damp : Sim) (d : Bool) (S P : XSim) : Prop :=
+  ∃ nl θ, h = hilbertStateX fl N d (absX fl S) P damp nl θ
+
+def xhLast (d0 : Bool) (S0 P0 : XSim) : List XHOp → Bool × XSim × XSim
+  | [] => (d0, S0, P0)
+  | .dir d S1 P1 :: os => xhLast d S1 P1 os
+  | _ :: os => xhLast d0 S0 P0 os
+
+theorem xh_step_consistent (fl : Rat → Rat) (h h' : XHNet) (N : Nat) (damp : Sim) (d : Bool)
+    (S P : XSim) (o : XHOp) (hc : h.Inv fl N damp d S P) (hs : h.step fl o = some h') :
+    h'.Inv fl N damp (xhLast d S P [o]).1 (xhLast d S P [o]).2.1 (xhLast d S P [o]).2.2 := by
+  obtain ⟨nl, θ, rfl⟩ := hc
+  cases o with
+  | thr θ' =>
+    simp only [XHNet.step, Option.some.injEq] at hs
+    subst hs
+    exact ⟨nl, θ', setThresholdX_eq_state fl _ θ'⟩
+  | dens k =>
+    simp only [XHNet.step, XHNet.setLinkDensity, Option.map_eq_some_iff] at hs
+    obtain ⟨θ', _, rfl⟩ := hs
+    exact ⟨nl, θ', setThresholdX_eq_state fl _ θ'⟩
+  | nl b =>
+    simp only [XHNet.step, Option.some.injEq] at hs
+    subst hs
+    exact ⟨b, θ, setNonLocalX_eq_state fl _ b rfl⟩
+  | dir d' S1 P1 =>
+    simp only [XHNet.step, Option.some.injEq] at hs
+    subst hs
+    exact ⟨nl, θ, setDirectedX_eq_state fl _ d' S1 P1⟩
+
+theorem xhLast_cons (d : Bool) (S P : XSim) (o : XHOp) (os : List XHOp) :
+    xhLast d S P (o :: os)
+      = xhLast (xhLast d S P [o]).1 (xhLast d S P [o]).2.1 (xhLast d S P [o]).2.2 os := by
+  cases o <;> simp [xhLast]
+
+/-- **consistency after every history, Hilbert network as executed** -/
+theorem xh_consistent_after_history (fl : Rat → Rat) (ops : List XHOp) (h h' : XHNet) (N : Nat)
+    (damp : Sim) (d : Bool) (S P : XSim) (hc : h.Inv fl N damp d S P)
+    (hr : h.run fl ops = some h') :
+    h'.Inv fl N damp (xhLast d S P ops).1 (xhLast d S P ops).2.1 (xhLast d S P ops).2.2 := by
+  induction ops generalizing h d S P with
+  | nil =>
+    simp only [XHNet.run, Option.some.injEq] at hr
+    subst hr
+    exact hc
+  | cons o os ih =>
+    simp only [XHNet.run, Option.bind_eq_some_iff] at hr
+    obtain ⟨h1, e1, e2⟩ := hr
+    rw [xhLast_cons]
+    exact ih h1 _ _ _ (xh_step_consistent fl h h1 N damp d S P o hc e1) e2
+
+/-- **fresh twin, Hilbert network as executed**: after any history of `set_threshold /
+set_link_density / set_non_local / set_directed` (NaN coherence / phase / thresholds, float32) the
+object equals the fresh `HilbertClimateNetwork` with the reported threshold / `non_local` and the
+last `directed`, coherence, phase; the reported `directed` is the last requested one -/
+theorem xh_history_eq_fresh (fl : Rat → Rat) (N : Nat) (d : Bool) (S0 P0 : XSim) (damp : Sim)
+    (nl : Bool) (θ : Option Rat) (ops : List XHOp) (h' : XHNet)
+    (hr : (mkHilbertX fl N d S0 P0 damp nl θ).run fl ops = some h') :
+    h' = mkHilbertX fl N (xhLast d S0 P0 ops).1 (xhLast d S0 P0 ops).2.1 (xhLast d S0 P0 ops).2.2
+          damp h'.net.nonLocal h'.net.θ ∧
+      h'.net.directed = (xhLast d S0 P0 ops).1 := by
+  have hc : (mkHilbertX fl N d S0 P0 damp nl θ).Inv fl N damp d S0 P0 := ⟨nl, θ, xh_constructor ..⟩
+  obtain ⟨nl', θ', rfl⟩ := xh_consistent_after_history fl ops _ h' N damp d S0 P0 hc hr
+  rw [xh_constructor]
+  exact ⟨rfl, rfl⟩
+
+/-- an undirected float32 Hilbert network is the float32 `ClimateNetwork` -/
+theorem xh_undirected_is_climate (fl : Rat → Rat) (h : XHNet) (θ : Option Rat)
+    (hd : h.net.directed = false) : (h.setThreshold fl θ).net = h.net.setThreshold fl θ := by
+  simp [XHNet.setThreshold, XHNet.maskIf, XNet.setThreshold, hd]
+
+/-- **the density request on a Hilbert network, as executed** (NaNs, float32 product, rounded
+threshold, IEEE index): the phase mask only removes links -/
+theorem xh_density_le_request (fl : Rat → Rat) (hmono : ∀ x y, x ≤ y → fl x ≤ fl y)
+    (h h' : XHNet) (ρ : Rat)
+    (hrep : ∀ i j v, i < h.net.N → j < h.net.N → h.net.S i j = some v → fl v = v ∧ 0 ≤ v)
+    (hd : ∀ i j, i < h.net.N → j < h.net.N → h.net.damp i j ≤ 1) (h0 : 0 ≤ ρ) (h1 : ρ ≤ 1)
+    (hs : h.setLinkDensity fl (ieeeIndex ρ (offDiagX h.net.S h.net.N).length) = some h') :
+    (nnz h'.net.A : Rat) ≤ (ρ + ieeeSlack) * ((offDiagX h.net.S h.net.N).length : Rat) := by
+  simp only [XHNet.setLinkDensity, Option.map_eq_some_iff] at hs
+  obtain ⟨θ, hθ, rfl⟩ := hs
+  have hb := x_set_link_density_ieee fl hmono h.net (h.net.setThreshold fl θ) ρ hrep hd h0 h1
+    (by simp [XNet.setLinkDensity, hθ])
+  have hle : nnz (h.setThreshold fl θ).net.A ≤ nnz (h.net.setThreshold fl θ).A := by
+    rw [setThresholdX_eq_state]
+    simp only [hilbertStateX, hilbertAdjacencyX, XNet.setThreshold]
+    split
+    · exact nnz_phaseMaskX_le _ _ _
+    · exact Nat.le_refl _
+  have : (nnz (h.setThreshold fl θ).net.A : Rat) ≤ (nnz (h.net.setThreshold fl θ).A : Rat) := by
+    exact_mod_cast hle
+  linarith
+
+/-- **… on every reachable float32 Hilbert network, nothing assumed about the rounding**: after
+any history (incl. `set_directed`), `set_link_density(ρ)` as executed links at most
+`(ρ + 2⁻⁵² + 2⁻¹⁰⁶)·(N² − N)` ordered pairs; only `damp ≤ 1` is left -/
+theorem rn24_hilbert_density_request_after_history (N : Nat) (d : Bool) (S0 P0 : XSim) (damp : Sim)
+    (nl : Bool) (θ : Option Rat) (ops : List XHOp) (h' h'' : XHNet) (ρ : Rat)
+    (hr : (mkHilbertX rn24 N d S0 P0 damp nl θ).run rn24 ops = some h')
+    (hd : ∀ i j, i < N → j < N → damp i j ≤ 1) (h0 : 0 ≤ ρ) (h1 : ρ ≤ 1)
+    (hs : h'.setLinkDensity rn24 (ieeeIndex ρ (offDiagX h'.net.S h'.net.N).length) = some h'') :
+    (nnz h''.net.A : Rat) ≤ (ρ + ieeeSlack) * ((offDiagX h'.net.S h'.net.N).length : Rat) := by
+  have hc : (mkHilbertX rn24 N d S0 P0 damp nl θ).Inv rn24 N damp d S0 P0 :=
+    ⟨nl, θ, xh_constructor ..⟩
+  obtain ⟨nl', θ', e⟩ := xh_consistent_after_history rn24 ops _ h' N damp d S0 P0 hc hr
+  refine xh_density_le_request rn24 rn24_monotone h' h'' ρ ?_ ?_ h0 h1 hs
+  · intro i j v _ _ hv
+    rw [e] at hv
+    exact rn24_stored_fixed _ i j v hv
+  · rw [e]; exact hd
+
+/-- **the exact Hilbert model is the special case** "no NaN, no rounding" -/
+theorem xh_refines (N : Nat) (d : Bool) (S0 P damp : Sim) (nl : Bool) (θ : Rat) :
+    mkHilbertX id N d (embedSim S0) (embedSim P) damp nl (some θ)
+      = hembed (mkHilbert N d S0 P damp nl θ) := by
+  rw [xh_constructor, hilbert_constructor, absX_embed, hilbertStateX_embed]
+
+/-- **… for whole histories**: running an exact Hilbert history (`set_threshold / set_link_density /
+set_non_local / set_directed`) on the embedded object is embedding the run of the exact model of
+section 7 -/
+theorem xh_refines_history (ops : List HOp) (h : HNet) :
+    (hembed h).run id (ops.map hembedOp) = (h.run ops).map hembed := hembed_run ops h
+
+/-- directed network, antisymmetric phase with a NaN pair: the pair (0,1) has coherence 1/3
+(float32: 11184811/2²⁵) above the threshold 1/4 and phase 1/2 > 0 → linked one way; the pair
+(0,2) has a NaN phase → never linked although its coherence 3/4 is above the threshold;
+`set_directed(False)` links both directions of both pairs -/
+example : let S : XSim := fun i j => if i = j then some 1 else if i + j = 1 then some (1/3)
+      else if i + j = 2 then some (3/4) else some (1/8)
+    let P : XSim := fun i j => if i + j = 2 ∧ i ≠ j then none else if i < j then some (1/2)
+      else if j < i then some (-1/2) else some 0
+    ((mkHilbertX rn24 3 true S P (fun _ _ => 1) false (some (1/4))).net.A
+        = [false, true, false, false, false, false, false, false, false]) ∧
+      (((mkHilbertX rn24 3 true S P (fun _ _ => 1) false (some (1/4))).run rn24
+          [.dir false S P]).map fun h => (h.net.directed, h.net.A, h.net.nLinks))
+        = some (false, [false, true, true, true, false, false, true, false, false], 2) := by
+  decide +kernel
 
 section Scripts
 open Script
